@@ -283,6 +283,28 @@ func init() {
 		st.watch = nw
 		return nil, ctlRet
 	})
+	regRepo("vhUnwatch", func(ex *Exec, st *State, fr *Frame, args []Value) (Value, ctlT) {
+		obj := args[0].(IfaceVal)
+		pt, ok := obj.T.Underlying().(*types.Pointer)
+		id := obj.V.(PtrVal).Obj
+		w, watched := st.watch[id]
+		if !ok || !watched {
+			unsup("vhUnwatch: object is not watched")
+		}
+		skip := map[int32]bool{}
+		for k := range w.skip {
+			skip[k] = true
+		}
+		skip[int32(fieldIndex(pt.Elem(), strArg(args[1])))] = true
+		nw := make(map[ObjID]watchDecl, len(st.watch))
+		for k, v := range st.watch {
+			nw[k] = v
+		}
+		w.skip = skip
+		nw[id] = w
+		st.watch = nw
+		return nil, ctlRet
+	})
 	regRepo("vhGuardCheck", func(ex *Exec, st *State, fr *Frame, args []Value) (Value, ctlT) {
 		st.guardOn = args[0].(*Term).IsTrue()
 		return nil, ctlRet
